@@ -22,18 +22,24 @@ func Union(c explore.Chooser) *prog.Program {
 	reach := s.Pick("reach", "field", "named-slice", "named-map", "top-level-only", "alias", "member-field", "nested-struct", "alias-of-member")
 
 	homonym := s.Pick("homonym", "none", "square-in-sub")
+	shapeFile := s.Pick("Shape.file", "analysed", "other")
 
 	var a, b, sub strings.Builder
 	needSub := false
 
-	// interfaces
+	// interfaces (Shape in the analysed file, or in the other file of the package: it is then only
+	// reached through the declarations that mention it)
+	shapeOut := &a
+	if shapeFile == "other" {
+		shapeOut = &b
+	}
 	switch nmeth {
 	case "1":
-		fmt.Fprintf(&a, "type Shape interface {\n\t%s()\n}\n\n", marker)
+		fmt.Fprintf(shapeOut, "type Shape interface {\n\t%s()\n}\n\n", marker)
 	case "0":
-		a.WriteString("type Shape interface{}\n\n")
+		shapeOut.WriteString("type Shape interface{}\n\n")
 	case "2":
-		fmt.Fprintf(&a, "type Shape interface {\n\t%s()\n\tArea() int\n}\n\n", marker)
+		fmt.Fprintf(shapeOut, "type Shape interface {\n\t%s()\n\tArea() int\n}\n\n", marker)
 	}
 	switch second {
 	case "other", "unreached":
